@@ -830,6 +830,8 @@ struct Exec
     {
         g_reg.reset();
         fctl() = FaultCtl();
+        atrack().enabled = true;
+        atrack().reset();
         for (size_t i = 0; i < plan.ops.size() && !stop; i++)
         {
             // remember pre-state of the target of make / copy-assign for the strong-guarantee clause
@@ -886,6 +888,9 @@ struct Exec
             fail(g_reg.pending.cls.c_str(), endop, static_cast<int>(plan.ops.size()), "end-of-run", g_reg.pending.detail);
         if (!stop && !g_reg.live.empty())
             fail("C18/leak", endop, static_cast<int>(plan.ops.size()), "end-of-run", std::to_string(g_reg.live.size()) + " payload(s) alive after every owner is gone");
+        if (!stop && atrack().live())
+            fail("C18/leak", endop, static_cast<int>(plan.ops.size()), "raw-storage",
+                 std::to_string(atrack().live()) + " block(s) allocated by the operations were never freed although every owner is gone");
         fctl() = FaultCtl();
         h.add(out.violated);
         if (out.violated)
